@@ -401,6 +401,25 @@ def check(ctx):
     # stores (whatever kind of rule it was given)
     ctx.borrow('C20.LOAD-STEP', c10.check_load_first,
                only=['C10.LOAD-FIRST'])
+    # readers: under discipline (a) a decision reads each store once (one
+    # snapshot); every further read on the decision side is another point
+    # at which a reload can slip in between two looks at the store
+    by_store = {}
+    for f, n, lock in readers:
+        by_store.setdefault('self.' + n.attr, []).append((f, n, lock))
+    for store, lst in sorted(by_store.items()):
+        lst = sorted(lst, key=lambda x: (x[0].qual, x[1].lineno))
+        ok = len(lst) <= 1 or (all_locked and None not in {
+            x[2] for x in lst})
+        ctx.ob('C20.READS', ok, ctx.where(lst[0][0].module, lst[0][1]), ENF,
+               'decision-side reads of %s' % store,
+               'read once per decision' if ok else
+               'a decision reads %s at %d places (%s) without a lock: a '
+               'reload that swaps the store between two of them makes the '
+               'decision combine an answer from the old store with one from '
+               'the new' % (store, len(lst), ', '.join(
+                   '%s:%d' % (x[0].name, x[1].lineno) for x in lst)),
+               witness={'sites': len(lst)})
     for f, n, lock in readers:
         ctx.sample('reader %s %s:%d %s' % (f.qual, f.module.path.split(
             '/')[-1], n.lineno, U(n)))
